@@ -97,7 +97,7 @@ inductive Out where
   | settings (pairs : List (Nat × Nat))
   | wu (sid inc : Nat)
   | ping (ack : Bool) (b : Bytes)
-  | headers (sid : Nat) (es eh : Bool) (len : Nat) (fields : List (Bytes × Bytes))
+  | headers (sid : Nat) (es eh : Bool) (len : Nat) (fields : List (Bytes × Bytes)) (hpackErr : Bool := false)
   | data (sid : Nat) (es : Bool) (len : Nat) (d : Digest)
   | rst (sid code : Nat)
   | goAway (last code : Nat) (tag : String)
@@ -116,7 +116,7 @@ def Out.toString : Out → String
   | .settings ps => "S(" ++ ",".intercalate (ps.map fun (k, v) => s!"{k}={v}") ++ ")"
   | .wu sid inc => s!"WU({sid},{inc})"
   | .ping ack b => s!"PING(ack={b01 ack},{toHex b})"
-  | .headers sid es eh len fs => s!"H({sid},es={b01 es},eh={b01 eh},len={len},{fmtKV fs})"
+  | .headers sid es eh len fs e => s!"H({sid},es={b01 es},eh={b01 eh},len={len},{fmtKV fs}{if e then ",hpack-err" else ""})"
   | .data sid es len d => s!"D({sid},es={b01 es},len={len},{d.toString})"
   | .rst sid code => s!"RST({sid},{code})"
   | .goAway last code tag => s!"GA(last={last},code={code},{tag.replace " " "_"})"
@@ -158,6 +158,8 @@ structure Srv where
   recvWin : Int := Gen.c_serverMaxWindow
   dec : Hpack.DecState := {}
   enc : Hpack.EncState := {}
+  peerDec : Hpack.DecState := {}   -- the scripted peer's own (reference) decoder for what the server sends
+  peerDecBroken : Bool := false
   closing : Bool := false
   closeRef : Nat := 0
   slStopped : Bool := false
